@@ -450,4 +450,6 @@ def stage(rep, tier, seed, hbin, replay=None):
         "rule": "codec stream (directed + seeded generated ASTs of base B/V/K/W with repeated keys in a third, their encodings, sampled byte-level edits, cross-context scripts, hand-made limit byte strings, opcode soups, random bytes) x rows {MAX, decode_consensus, decode, CONSENSUS minus duplicate keys, SANE plus raw pkh; when MAX accepts: MAX minus each of 15 switches, MAX and SANE with each of 5 limits on the script's own figure, MAX one below it}",
         "checker_cmd": "coqc Properties/C04DecodeParams.v; verif-harness decparams %d %d %d %d; coqc work/c04dp/s<k>/DecParamsCasesGen.v Tables/DecParamsCasesCheck.v (one coqc per shard)" % (seed, n_ast, n_edit, n_rand),
         "samples": samples}
+    if isinstance(getattr(rep, "assumptions", None), list):
+        rep.assumptions.append("since extension round 2 ValidationParams other than MAX ARE in the model (Ms/DecodeParamsModel.decode_with = the C04 decoder model, then C12's validate on facts computed from the decoded AST by TypeCheck / ExtModel / CodecExt); decoded keys are bitcoin::PublicKey / XOnlyPublicKey: no multipath keys, x-only exactly in Tap")
     return obligations, discharged
